@@ -97,7 +97,7 @@ func refTagName(re *regexp.Regexp, key string) string {
 
 func (c13) Run(e *Env) {
 	e.ProbeDecl("lookup-hit", "lookup-miss", "ip-reused-by-other-pod", "phase-only-update", "deletion-timestamp-update", "label-edit", "annotation-edit", "ip-changed", "ip-unset", "delete", "lookup-before-pod-exists",
-		"host-network-pod", "tag-group-empty-falls-back-to-key", "regex-without-group", "via-ipsink", "racing-lookup", "partition", "tombstone-delete-after-relist", "changed-while-partitioned", "key-swapped-in-one-update", "two-changes-in-one-race-window", "informer-resync")
+		"host-network-pod", "tag-group-empty-falls-back-to-key", "regex-without-group", "via-ipsink", "racing-lookup", "partition", "tombstone-delete-after-relist", "changed-while-partitioned", "key-swapped-in-one-update", "two-changes-in-one-race-window", "informer-resync", "lookup-begun-while-another-is-parked")
 	labelRes := []string{"", "^app$", "^(?:app|team/(?P<tag>.+))$", "^tier(?P<tag>.*)$", "^nomatch$", "^team/(.+)$", "^(?:tier-(?P<tag>.+)|team/(?P<tag>.+)|note)$"}
 	annRes := []string{k8s.DefaultAnnotationTagRegex, "", "^gostatsd\\.atlassian\\.com/(?P<tag>.*)$", "^note$", "^(?P<tag>x)?note$"}
 	lr, ar := labelRes[e.Draw(len(labelRes))], annRes[e.Draw(len(annRes))]
@@ -145,7 +145,8 @@ func (c13) Run(e *Env) {
 	yg := &yieldGate{gate: NewGate("yield"), anyObj: true, sites: map[string]bool{}}
 	yg.off.Store(true) // armed only around the racing lookup: the driver's own lookups must not park
 	if racing {
-		yg.sites["k8s.instanceFromCache.before-store"] = true
+		// parked either after the informer was read (inside the computation) or after the computation, before memoising
+		yg.sites[[]string{"k8s.instanceFromCache.before-store", "k8s.instanceFromInformer.after-read"}[e.Draw(2)]] = true
 		verifhook.SetYield(yg.fn)
 		defer verifhook.SetYield(nil)
 	}
@@ -562,8 +563,28 @@ func (c13) Run(e *Env) {
 							}
 						}
 					}
+					// a second lookup of the same address begins only now, after the change has been
+					// observed, while the first one is still parked: it has no excuse for an old answer
+					var done2 chan *gostatsd.Instance
+					if e.Bool() {
+						done2 = make(chan *gostatsd.Instance, 1)
+						wg.Add(1)
+						go func() { defer wg.Done(); inst, _ := prov.Peek(gostatsd.Source(ip)); done2 <- inst }()
+						e.Settle()
+						e.Probe("lookup-begun-while-another-is-parked")
+					}
 					for _, p := range yg.gate.Parked() {
 						yg.gate.Release(p, nil)
+					}
+					if done2 != nil {
+						e.Settle()
+						select {
+						case inst2 := <-done2:
+							e.Event("lookup %s begun during the race -> %v", ip, inst2 != nil)
+							judge(ip, inst2, "Peek begun after the change was observed")
+						default:
+							e.Failf("C13/lookup-never-returns", "a lookup of %s begun while another one was parked has not returned although nothing is parked any more", ip)
+						}
 					}
 				}
 				<-done // the answer given during the race may be old or new: not judged
